@@ -333,7 +333,8 @@ def bounded_masks_instance():
                 fr = 0.98
             if np.any(Pp.max(axis=axp) >= fr * Pp.sum(axis=axp)):
                 return {'fn': 'skip', 's': x, 'out': np.zeros(1)}
-            res.update(s=x, frac=fr, sen=sen, ax=ax, keep=keep, out=mm.lorenz_mask(x, sensor_axis=sen, axis=axis_arg, lorenz_fraction=fr, keepdims=keep))
+            wgt = float(rng.choice([0.999, 1.0, 0.5, 0.0]))
+            res.update(s=x, frac=fr, sen=sen, ax=ax, keep=keep, wgt=wgt, out=mm.lorenz_mask(x, sensor_axis=sen, axis=axis_arg, lorenz_fraction=fr, keepdims=keep, weight=wgt))
         elif fn == 'quantile-options':
             shp = [int(rng.randint(2, 4)), int(rng.randint(4, 9)), int(rng.randint(4, 9))]
             x = rng.normal(size=shp) + 1j * rng.normal(size=shp)
@@ -344,7 +345,8 @@ def bounded_masks_instance():
             qs = [float(q) for q in rng.choice([0.1, 0.25, -0.9, -0.5, 0.5, -0.25], size=int(rng.randint(1, 4)), replace=False)]
             q_arg = tuple(qs) if (len(qs) > 1 or rng.rand() < 0.5) else qs[0]
             axis_arg = ax if (len(ax) > 1 or rng.rand() < 0.5) else ax[0]
-            res.update(s=x, qs=qs, q_is_seq=isinstance(q_arg, tuple), ax=ax, out=mm.quantile_mask(x, quantile=q_arg, axis=axis_arg))
+            wgt = float(rng.choice([0.999, 1.0, 0.5, 0.0]))
+            res.update(s=x, qs=qs, q_is_seq=isinstance(q_arg, tuple), ax=ax, wgt=wgt, out=mm.quantile_mask(x, quantile=q_arg, axis=axis_arg, weight=wgt))
         else:
             x = rng.normal(size=(rng.randint(8, 20), rng.randint(2, 6))) + 1j * rng.normal(size=(1, 1))
             if inp['ties']:
@@ -402,7 +404,7 @@ def bounded_masks_instance():
                 if sel.size == 0:
                     ok_def = False
                     break
-                exp[tuple(sl)] = np.where(v > sel.min(), 0.5 + 0.999 * 0.5, 0.5 - 0.999 * 0.5)
+                exp[tuple(sl)] = np.where(v > sel.min(), 0.5 + out['wgt'] * 0.5, 0.5 - out['wgt'] * 0.5)
             if ok_def:
                 if sen is not None and not keep:
                     exp = np.squeeze(exp, sen % s.ndim)
@@ -427,7 +429,7 @@ def bounded_masks_instance():
                     i1 = min(i0 + 1, n - 1)
                     thr = srt[i0] + (srt[i1] - srt[i0]) * (pos - i0)
                     high = (v > thr) if q >= 0 else (v < thr)
-                    exp[tuple(sl)] = np.where(high, 0.5 + 0.999 * 0.5, 0.5 - 0.999 * 0.5)
+                    exp[tuple(sl)] = np.where(high, 0.5 + out['wgt'] * 0.5, 0.5 - out['wgt'] * 0.5)
                     margin[tuple(sl)] = np.abs(v - thr) > 1e-9
                 exps.append(exp)
                 margins.append(margin)
